@@ -820,6 +820,9 @@ func tupleOfCase(c *Case) tuple {
 	t[3] = indexOfCT(c.CTName)
 	t[4] = indexByName(len(hdrs), func(i int) string { return hdrs[i].Name }, c.HdrName, "header set")
 	t[5] = indexOfBody(c.BodyName)
+	if c.Delivery != "" {
+		t[7] = indexOfDeliv(c.Delivery)
+	}
 	return t
 }
 
